@@ -902,3 +902,427 @@ Proof.
     { apply (C y); auto. rewrite Bf, Bx, Af, Ax, Bk, Ak in Hy. cbn [In] in Hy. rewrite in_app_iff. tauto. }
     unfold FC in K. rewrite in_app_iff in K. tauto.
 Qed.
+
+(** * Part E: a whole poll *)
+Lemma stage_fold_ms g l : forall s, msteps g false s [] (fold_left (stage_node_gen g) l s) [].
+Proof.
+  induction l as [|a l IH]; intros s; cbn [fold_left]; [constructor|].
+  destruct (stage_astep g s a []) as [A E]. econstructor; [exact A| |apply IH].
+  right. intros y. unfold getrec. rewrite E. reflexivity.
+Qed.
+
+Lemma launch_iter_ms c g n : forall s, msteps g false s [] (Nat.iter n (launch_body_gen c g) s) [].
+Proof.
+  induction n as [|n IH]; intros s; cbn [Nat.iter nat_rect]; [constructor|].
+  eapply ms_trans; [apply IH|].
+  set (t := Nat.iter n (launch_body_gen c g) s).
+  destruct (ready t) as [|x rest] eqn:E.
+  - rewrite launch_nil by exact E. constructor.
+  - destruct (launch_astep c g t x rest E) as (A & _ & _). eapply ms_one; [exact A|].
+    left. right. right. rewrite E. left. reflexivity.
+Qed.
+
+Lemma dispatch_nil c g s : dispatch_gen c g [] s = s.
+Proof. reflexivity. Qed.
+
+(** the liveness invariant *)
+Record LInv (g : graph) (s : st) : Prop := {
+  li_acct : acct s [];
+  li_clo : clo g s [];
+  li_deps : depsok g s }.
+
+Lemma dispatch_wle c g reps s : existsb is_hw reps = false ->
+  (forall y, wt g (dispatch_gen c g reps s) y <= wt g s y) /\
+  length (recs (dispatch_gen c g reps s)) = length (recs s).
+Proof.
+  intros H. unfold dispatch_gen.
+  destruct (fold_left (handle_report_gen c g) reps (s, [], [])) as [[s1 cl] ca] eqn:E.
+  destruct (fold_hr_wle c g reps s [] [] s1 cl ca E H) as [W L].
+  destruct (sweep_facts g s1 cl ca) as [S1 _ _ _ _ _ _ _ S9]. split.
+  - intros y. unfold wt at 1. rewrite S1. apply W.
+  - rewrite S9. exact L.
+Qed.
+
+Lemma dispatch_LInv c g reps s : WF g -> (forall r, In r reps -> In (fst r) (inprog s)) ->
+  LInv g s -> LInv g (dispatch_gen c g reps s).
+Proof.
+  intros W V [A C D]. unfold dispatch_gen.
+  destruct (fold_left (handle_report_gen c g) reps (s, [], [])) as [[s1 cl] ca] eqn:E.
+  assert (M : msteps g true s ([] ++ []) s1 (cl ++ ca)).
+  { eapply fold_hr_msteps; eauto. intros r Hr. right. left. apply V. exact Hr. }
+  cbn [app] in M.
+  destruct (sweep_facts g s1 cl ca) as [S1 S2 S3 S4 S5 S6 S7 S8 S9]. constructor.
+  - apply S3. eapply ms_acct; eauto.
+  - apply S4. eapply ms_clo; eauto.
+  - intros y. unfold getdeps. rewrite S5. apply (ms_depsok _ _ _ _ _ _ M D y).
+Qed.
+
+(** the state on which [execute_ready_steps] dispatches *)
+Definition pre_state (c : cfg) (p : pin) (s : st) : st :=
+  let s0 := set_evs (set_subs s (psubs p)) [] in
+  let s1 := if cancel_req p then cancel_study_gen s0 else s0 in
+  if negb (dry c) then emit (ECheck (map (lastjob s1) (inprog s1))) s1 else s1.
+Definition disp_state (c : cfg) (g : graph) (p : pin) (s : st) : st :=
+  if dry c then s else if qcode_eqb (qcode p) QOK then dispatch_gen c g (reports p) s else s.
+Definition stage_state (g : graph) (s : st) : st := fold_left (stage_node_gen g) (seq 0 (length g)) s.
+Definition launch_state (c : cfg) (g : graph) (s : st) : st := Nat.iter (available_gen c s) (launch_body_gen c g) s.
+
+Lemma poll_eq c g s p :
+  poll c g s p =
+  if aborts c p then (pre_state c p s, SABORT)
+  else let s5 := launch_state c g (stage_state g (disp_state c g p (pre_state c p s))) in (s5, completion_gen g s5).
+Proof.
+  unfold poll, execute_ready_steps_gen, aborts, pre_state, disp_state, stage_state, launch_state.
+  destruct (dry c); cbn [negb andb].
+  - cbn [qcode_eqb]. rewrite dispatch_nil. reflexivity.
+  - destruct (qcode_eqb (qcode p) QERROR); [reflexivity|]. reflexivity.
+Qed.
+
+Lemma pre_state_view c p s :
+  completed (pre_state c p s) = completed s /\ inprog (pre_state c p s) = inprog s /\ ready (pre_state c p s) = ready s /\
+  failed (pre_state c p s) = failed s /\ cancelled (pre_state c p s) = cancelled s /\ deps (pre_state c p s) = deps s /\
+  recs (pre_state c p s) = recs s /\ canceled (pre_state c p s) = (cancel_req p || canceled s).
+Proof.
+  unfold pre_state, cancel_study_gen. destruct (cancel_req p), (negb (dry c)); cbn; splits; reflexivity.
+Qed.
+
+Lemma pre_state_wt c g p s y : wt g (pre_state c p s) y = wt g s y.
+Proof.
+  destruct (pre_state_view c p s) as (A & B & C & D & E & F & G & H).
+  apply wtR_ext; unfold resR; rewrite ?A, ?B, ?C, ?D, ?E; try tauto. unfold getrec. rewrite G. reflexivity.
+Qed.
+
+Lemma pre_state_LInv c g p s : LInv g s -> LInv g (pre_state c p s).
+Proof.
+  destruct (pre_state_view c p s) as (A & B & C & D & E & F & G & H). intros [X Y Z]. constructor.
+  - intros y Hy. unfold getrec in Hy. rewrite G in Hy. specialize (X y Hy).
+    unfold tracked, resR in *. rewrite A, B, C, D, E. exact X.
+  - intros y Hy ch Hc. unfold FC. rewrite D, E. apply (Y y); auto.
+    rewrite D, E, H in Hy. destruct Hy as [K|[K|[K1 K2]]]; auto.
+    right. right. split; auto. destruct (cancel_req p); [discriminate|exact K1].
+  - intros y. unfold getdeps. rewrite F. apply Z.
+Qed.
+
+Lemma pre_state_Inv c g p s : Inv g s -> Inv g (pre_state c p s).
+Proof.
+  intros I. unfold pre_state.
+  assert (I0 : Inv g (set_evs (set_subs s (psubs p)) [])) by (apply Inv_set_evs, Inv_set_subs; auto).
+  set (s0 := set_evs (set_subs s (psubs p)) []) in *.
+  assert (I1 : Inv g (if cancel_req p then cancel_study_gen s0 else s0)).
+  { destruct (cancel_req p); auto. unfold cancel_study_gen. apply Inv_set_canceled, Inv_emit. auto. }
+  destruct (negb (dry c)); [apply Inv_emit|]; auto.
+Qed.
+
+Definition hw_delivered (c : cfg) (p : pin) : bool :=
+  negb (dry c) && qcode_eqb (qcode p) QOK && existsb is_hw (reports p).
+
+Lemma disp_state_wle c g p s : hw_delivered c p = false ->
+  (forall y, wt g (disp_state c g p s) y <= wt g s y) /\ length (recs (disp_state c g p s)) = length (recs s).
+Proof.
+  unfold hw_delivered, disp_state. destruct (dry c); cbn [negb andb]; [split; auto|].
+  destruct (qcode_eqb (qcode p) QOK); cbn [andb]; [|split; auto].
+  intros H. apply dispatch_wle. exact H.
+Qed.
+
+Lemma tail_wle c g s y : wt g (launch_state c g (stage_state g s)) y <= wt g s y.
+Proof.
+  unfold launch_state, stage_state, wt.
+  eapply (wle_trans g s [] _ [] _ []); [apply ms_wle; apply stage_fold_ms | apply ms_wle; apply launch_iter_ms].
+Qed.
+
+Lemma Phi_le g s s' : (forall y, wt g s' y <= wt g s y) -> Phi g s' <= Phi g s.
+Proof. intros H. apply sumf_le. intros x _. apply H. Qed.
+Lemma Phi_lt g s s' x : (forall y, wt g s' y <= wt g s y) -> x < length g -> wt g s' x < wt g s x -> Phi g s' < Phi g s.
+Proof. intros H Hx Hl. eapply sumf_lt; eauto. apply In_seq_lt. exact Hx. Qed.
+
+Theorem poll_wt_le c g s p : hw_delivered c p = false -> forall y, wt g (fst (poll c g s p)) y <= wt g s y.
+Proof.
+  intros H y. rewrite poll_eq. destruct (aborts c p); cbn [fst].
+  - rewrite pre_state_wt. lia.
+  - eapply Nat.le_trans; [apply tail_wle|]. rewrite <- (pre_state_wt c g p s y).
+    apply disp_state_wle. exact H.
+Qed.
+
+Theorem poll_phi_le c g s p : hw_delivered c p = false -> Phi g (fst (poll c g s p)) <= Phi g s.
+Proof. intros H. apply Phi_le. apply poll_wt_le. exact H. Qed.
+
+Theorem poll_LInv c g s p : WF g -> LInv g s -> valid_pin s p = true -> LInv g (fst (poll c g s p)).
+Proof.
+  intros W L V. rewrite poll_eq. pose proof (pre_state_LInv c g p s L) as L1.
+  destruct (aborts c p); cbn [fst]; auto.
+  assert (L2 : LInv g (disp_state c g p (pre_state c p s))).
+  { unfold disp_state. destruct (dry c); auto. destruct (qcode_eqb (qcode p) QOK); auto.
+    apply dispatch_LInv; auto. apply valid_pin_spec in V. destruct V as [_ V]. intros [x o] Hr.
+    destruct (pre_state_view c p s) as (_ & B & _). rewrite B. eapply V; eauto. }
+  set (s3 := disp_state c g p (pre_state c p s)) in *.
+  pose proof (stage_fold_ms g (seq 0 (length g)) s3) as M1. fold (stage_state g s3) in M1.
+  pose proof (launch_iter_ms c g (available_gen c (stage_state g s3)) (stage_state g s3)) as M2.
+  fold (launch_state c g (stage_state g s3)) in M2.
+  pose proof (ms_trans _ _ _ _ _ _ _ _ M1 M2) as M. destruct L2 as [X Y Z]. constructor.
+  - eapply ms_acct; eauto.
+  - eapply ms_clo; eauto.
+  - eapply ms_depsok; eauto.
+Qed.
+
+Lemma lv_nth_map_const {A B} (d : B) (l : list A) : forall y, nth y (map (fun _ => d) l) d = d.
+Proof. induction l as [|a l IH]; intros [|y]; cbn; auto. Qed.
+
+Lemma init_LInv g : LInv g (init g).
+Proof.
+  constructor.
+  - intros y Hy. exfalso. apply Hy. unfold getrec, init. cbn [recs]. rewrite lv_nth_map_const. reflexivity.
+  - intros y [[]|[[]|[_ []]]].
+  - intros y. unfold getdeps, init. cbn [deps]. change (@nil nat) with (parents dflt_attr).
+    rewrite map_nth. apply incl_refl.
+Qed.
+
+(** * Part F: productive polls strictly decrease the potential *)
+
+(** a report that settles something: every terminal report except HWFAILURE
+    (excluded by [hw_delivered]) and TIMEDOUT for a step with unlimited restarts *)
+Definition prod_report (g : graph) (x : nat) (v : State) : bool :=
+  match v with
+  | FINISHED | FAILED | CANCELLED | UNKNOWN => true
+  | TIMEDOUT => negb (has_restart (attr g x) && (rlimit (attr g x) =? 0))
+  | _ => false
+  end.
+
+Lemma hr_strict c g s cl ca x v s' cl' ca' : prod_report g x v = true -> x < length (recs s) ->
+  handle_report_gen c g (s, cl, ca) (x, Some v) = (s', cl', ca') ->
+  resR s' (cl' ++ ca') x \/ (In x (inprog s') /\ budget g s' x < budget g s x).
+Proof.
+  intros P Hx. pose proof (bfs_subtree_root g x) as Root.
+  destruct v; cbn [prod_report] in P; try discriminate; unfold handle_report_gen; cbn [oeqb state_eqb].
+  - (* FINISHED *) intros H; injection H as <- <- <-. left. mset.
+  - (* FAILED *) intros H; injection H as <- <- <-. left. unfold resR. rewrite in_app_iff, lv_In_set_union. auto 6.
+  - (* TIMEDOUT *)
+    destruct (has_restart (attr g x)) eqn:HR; cbn [andb] in *.
+    2:{ intros H; injection H as <- <- <-. left. mset. }
+    apply negb_true_iff, Nat.eqb_neq in P.
+    destruct (negb (canceled s)).
+    2:{ intros H; injection H as <- <- <-. left. mset. }
+    unfold mark_restart_gen. set (s1 := rec_set_status x TIMEDOUT s).
+    assert (R1 : restarts (getrec s1 x) = restarts (getrec s x)) by apply restarts_set_status.
+    destruct (rlimit (attr g x) =? 0) eqn:Z; [apply Nat.eqb_eq in Z; contradiction|]. cbn [orb].
+    destruct (restarts (getrec s1 x) <? rlimit (attr g x)) eqn:LT.
+    + apply Nat.ltb_lt in LT. intros H; injection H as <- <- <-.
+      destruct (er_astep c g x true (rec_inc_restarts x s1) (cl ++ ca)) as (_ & RS & O).
+      destruct O as [O|O]; [left; exact O|right]. split; auto.
+      unfold budget. rewrite HR, Z. cbn [andb negb]. rewrite RS.
+      rewrite lv_restarts_inc_eq by (unfold s1; rewrite len_recs_set_status; exact Hx). lia.
+    + intros H; injection H as <- <- <-. left. unfold resR. rewrite in_app_iff, lv_In_set_union. auto 6.
+  - (* UNKNOWN *) intros H; injection H as <- <- <-. left. unfold resR. rewrite in_app_iff, lv_In_set_union. auto 6.
+  - (* CANCELLED *) intros H; injection H as <- <- <-. left. unfold resR. rewrite !in_app_iff, lv_In_set_union. auto 6.
+Qed.
+
+Lemma hr_strict_wt c g s cl ca x v s' cl' ca' : prod_report g x v = true -> x < length (recs s) ->
+  handle_report_gen c g (s, cl, ca) (x, Some v) = (s', cl', ca') ->
+  wtR g s' (cl' ++ ca') x < wtR g s (cl ++ ca) x \/ wtR g s' (cl' ++ ca') x = 0.
+Proof.
+  intros P Hx E. destruct (hr_strict c g s cl ca x v s' cl' ca' P Hx E) as [K|[K1 K2]].
+  - right. apply wtR_res. exact K.
+  - destruct (resR_dec s' (cl' ++ ca') x) as [K|K]; [right; apply wtR_res; exact K|left].
+    pose proof (hr_astep c g s cl ca x (Some v) s' cl' ca' E) as A.
+    assert (N : ~ resR s (cl ++ ca) x) by (intros N; apply K; eapply as_res; eauto).
+    rewrite !wtR_unres; auto. rewrite (stagew_inprog s' x K1). pose proof (stagew_ge1 s x). lia.
+Qed.
+
+Lemma existsb_app_false {A} (f : A -> bool) l1 l2 : existsb f (l1 ++ l2) = false -> existsb f l1 = false /\ existsb f l2 = false.
+Proof. rewrite existsb_app. apply orb_false_iff. Qed.
+
+Lemma dispatch_strict c g reps s x v : In (x, Some v) reps -> existsb is_hw reps = false ->
+  prod_report g x v = true -> x < length (recs s) -> ~ resR s [] x ->
+  wt g (dispatch_gen c g reps s) x < wt g s x.
+Proof.
+  intros Hin H P Hx N. apply in_split in Hin. destruct Hin as (l1 & l2 & ->).
+  apply existsb_app_false in H. destruct H as [H1 H2]. cbn [existsb] in H2. apply orb_false_iff in H2. destruct H2 as [_ H2].
+  unfold dispatch_gen. rewrite fold_left_app. cbn [fold_left].
+  destruct (fold_left (handle_report_gen c g) l1 (s, [], [])) as [[s1 cl1] ca1] eqn:E1.
+  destruct (handle_report_gen c g (s1, cl1, ca1) (x, Some v)) as [[s2 cl2] ca2] eqn:E2.
+  destruct (fold_left (handle_report_gen c g) l2 (s2, cl2, ca2)) as [[s3 cl3] ca3] eqn:E3.
+  destruct (fold_hr_wle c g l1 _ _ _ _ _ _ E1 H1) as [W1 L1].
+  destruct (fold_hr_wle c g l2 _ _ _ _ _ _ E3 H2) as [W3 _].
+  assert (Hx1 : x < length (recs s1)) by (rewrite L1; exact Hx).
+  pose proof (hr_strict_wt c g s1 cl1 ca1 x v s2 cl2 ca2 P Hx1 E2) as S.
+  destruct (sweep_facts g s3 cl3 ca3) as [S1 _ _ _ _ _ _ _ _].
+  unfold wt at 1. rewrite S1. specialize (W1 x). specialize (W3 x). cbn [app] in W1.
+  assert (1 <= wt g s x). { unfold wt. rewrite wtR_unres by exact N. pose proof (stagew_ge1 s x). lia. }
+  unfold wt in *. lia.
+Qed.
+
+Definition productive (c : cfg) (g : graph) (s : st) (p : pin) : bool :=
+  negb (dry c) && qcode_eqb (qcode p) QOK &&
+  existsb (fun r => mem (fst r) (inprog s) && match snd r with Some v => prod_report g (fst r) v | None => false end)
+          (reports p).
+
+Lemma inprog_unresolved g s x : Inv g s -> In x (inprog s) -> ~ resR s [] x /\ x < length g.
+Proof.
+  intros I H. split; [|apply (i_bound g s I); auto].
+  intros [K|[K|[K|[]]]].
+  - exact (i_dj_ci g s I x K H).
+  - destruct (i_dj_fc g s I x (or_introl K)) as (_ & A & _). auto.
+  - destruct (i_dj_fc g s I x (or_intror K)) as (_ & A & _). auto.
+Qed.
+
+Theorem poll_phi_lt_report c g s p : Inv g s -> hw_delivered c p = false -> productive c g s p = true ->
+  Phi g (fst (poll c g s p)) < Phi g s.
+Proof.
+  intros I H P. unfold productive in P. rewrite !andb_true_iff in P. destruct P as [[D Q] P].
+  apply negb_true_iff in D. apply existsb_exists in P. destruct P as ([x o] & Hin & P). cbn [fst snd] in P.
+  apply andb_true_iff in P. destruct P as [Px Pv]. apply mem_In in Px. destruct o as [v|]; [|discriminate].
+  destruct (inprog_unresolved g s x I Px) as [N Hx].
+  apply (Phi_lt g s _ x); [apply poll_wt_le; exact H | exact Hx |].
+  rewrite poll_eq. assert (Ab : aborts c p = false).
+  { unfold aborts. rewrite D. cbn. destruct (qcode p); cbn in *; congruence. }
+  rewrite Ab. cbn [fst]. eapply Nat.le_lt_trans; [apply tail_wle|].
+  rewrite <- (pre_state_wt c g p s x). unfold disp_state. rewrite D, Q.
+  unfold hw_delivered in H. rewrite D, Q in H. cbn [negb andb] in H.
+  destruct (pre_state_view c p s) as (A & B & C & D' & E & F & G & _).
+  apply (dispatch_strict c g (reports p) _ x v); auto.
+  - rewrite G, (i_len_recs g s I). exact Hx.
+  - unfold resR. rewrite A, D', E. exact N.
+Qed.
+
+(** ** no deadlock *)
+Lemma lv_min_counter (P : nat -> Prop) (dec : forall x, P x \/ ~ P x) n :
+  ~ (forall x, x < n -> P x) -> exists x, x < n /\ ~ P x /\ forall y, y < x -> P y.
+Proof.
+  assert (C : forall n, (forall x, x < n -> P x) \/ exists x, x < n /\ ~ P x /\ forall y, y < x -> P y).
+  { clear n. induction n as [|n [IH|(x & A & B & D)]].
+    - left. intros x Hx. lia.
+    - destruct (dec n) as [K|K].
+      + left. intros x Hx. destruct (Nat.eq_dec x n) as [->|]; auto. apply IH. lia.
+      + right. exists n. splits; auto.
+    - right. exists x. splits; auto. }
+  intros H. destruct (C n) as [K|K]; [contradiction|exact K].
+Qed.
+
+Lemma stage_node_ready_mono g s a y : In y (ready s) -> In y (ready (stage_node_gen g s a)).
+Proof.
+  intros H. unfold stage_node_gen. destruct (mem a (completed s)); auto.
+  destruct (state_eqb (status (getrec s a)) INITIALIZED); auto.
+  destruct (is_nil (getdeps (deps_prune a s) a)); auto.
+  destruct (negb (mem a (ready (deps_prune a s)))); auto.
+  cbn. rewrite in_app_iff. left. exact H.
+Qed.
+
+Lemma stage_fold_ready_mono g l : forall s y, In y (ready s) -> In y (ready (fold_left (stage_node_gen g) l s)).
+Proof. induction l as [|a l IH]; intros s y H; cbn [fold_left]; auto. apply IH. apply stage_node_ready_mono. exact H. Qed.
+
+Lemma filter_nil_all {A} (f : A -> bool) l : (forall z, In z l -> f z = false) -> filter f l = [].
+Proof.
+  induction l as [|a l IH]; intros H; cbn; auto. rewrite (H a (or_introl eq_refl)). apply IH. intros z Hz. apply H. right. exact Hz.
+Qed.
+
+Lemma stage_node_puts g s x : ~ In x (completed s) -> status (getrec s x) = INITIALIZED ->
+  incl (getdeps s x) (completed s) -> In x (ready (stage_node_gen g s x)).
+Proof.
+  intros Hc Hs Hd. unfold stage_node_gen. apply mem_false in Hc. rewrite Hc, Hs. cbn [state_eqb].
+  assert (E : getdeps (deps_prune x s) x = []).
+  { destruct (Nat.lt_ge_cases x (length (deps s))) as [Hl|Hl].
+    - rewrite getdeps_prune_eq by exact Hl. apply filter_nil_all. intros z Hz.
+      apply negb_false_iff. apply mem_In. apply Hd. exact Hz.
+    - unfold getdeps, deps_prune. cbn. rewrite nth_upd_ge by exact Hl. apply nth_overflow. exact Hl. }
+  rewrite E. cbn [is_nil].
+  destruct (mem x (ready (deps_prune x s))) eqn:M; cbn [negb].
+  - apply mem_In in M. exact M.
+  - cbn. rewrite in_app_iff. right. left. reflexivity.
+Qed.
+
+Lemma stage_fold_ready g l x : forall s, In x l -> ~ In x (completed s) -> status (getrec s x) = INITIALIZED ->
+  incl (getdeps s x) (completed s) -> In x (ready (fold_left (stage_node_gen g) l s)).
+Proof.
+  induction l as [|a l IH]; intros s Hin Hc Hs Hd; [destruct Hin|]. cbn [fold_left].
+  destruct (Nat.eq_dec a x) as [->|Hn].
+  - apply stage_fold_ready_mono. apply stage_node_puts; auto.
+  - destruct Hin as [Hin|Hin]; [contradiction|].
+    destruct (stage_node_frame g s a) as (Fc & _ & _ & _ & Fr & _).
+    destruct (stage_astep g s a []) as [A _].
+    apply IH; auto.
+    + rewrite Fc. exact Hc.
+    + unfold getrec. rewrite Fr. exact Hs.
+    + rewrite Fc. intros z Hz. apply Hd. eapply as_deps; eauto.
+Qed.
+
+Lemma lv_iter_succ_r {A} (f : A -> A) k : forall a, Nat.iter (S k) f a = Nat.iter k f (f a).
+Proof.
+  induction k as [|k IH]; intros a; [reflexivity|].
+  change (Nat.iter (S (S k)) f a) with (f (Nat.iter (S k) f a)). rewrite IH. reflexivity.
+Qed.
+
+Lemma launch_strict c g s : Inv g s -> ready s <> [] -> inprog s = [] -> 0 < available_gen c s ->
+  exists x, x < length g /\ wt g (launch_state c g s) x < wt g s x.
+Proof.
+  intros I Hr Hi Ha. unfold launch_state. destruct (available_gen c s) as [|k]; [lia|].
+  rewrite lv_iter_succ_r.
+  destruct (ready s) as [|x rest] eqn:E; [congruence|].
+  destruct (ready_head_facts g s x rest I E) as (Hl & Hc & Hin & _ & Hf & Hca & _).
+  destruct (launch_astep c g s x rest E) as (A & O & RS).
+  exists x. split; auto.
+  eapply Nat.le_lt_trans; [exact (ms_wle g _ [] _ [] (launch_iter_ms c g k (launch_body_gen c g s)) x)|].
+  set (s1 := launch_body_gen c g s) in *.
+  assert (N : ~ resR s [] x) by (intros [K|[K|[K|[]]]]; auto).
+  unfold wt. rewrite (wtR_unres g s [] x N).
+  rewrite (stagew_ready s x Hin) by (rewrite E; left; reflexivity).
+  destruct (resR_dec s1 [] x) as [K|K]; [rewrite wtR_res by exact K; lia|].
+  destruct O as [O|O]; [contradiction|].
+  rewrite (wtR_unres g s1 [] x K), (stagew_inprog s1 x O).
+  unfold budget. rewrite RS. lia.
+Qed.
+
+Theorem poll_phi_lt_idle c g s p : WF g -> Inv g s -> LInv g s -> valid_pin s p = true ->
+  inprog s = [] -> completion_gen g s = SRUNNING -> aborts c p = false ->
+  Phi g (fst (poll c g s p)) < Phi g s.
+Proof.
+  intros W I L V Hi Hc Ab.
+  apply verdict_running in Hc. destruct Hc as [Nc Nr].
+  assert (K : canceled s = false).
+  { destruct (canceled s) eqn:K; auto. exfalso. apply Nc. split; auto. }
+  (* no reports can be valid *)
+  assert (Rp : reports p = []).
+  { apply valid_pin_spec in V. destruct V as [_ V]. destruct (reports p) as [|[x o] l]; auto.
+    exfalso. specialize (V x o (or_introl eq_refl)). rewrite Hi in V. destruct V. }
+  (* a minimal unresolved node *)
+  destruct (lv_min_counter (fun x => In x (completed s) \/ In x (failed s) \/ In x (cancelled s))) with (n := length g)
+    as (x & Hx & Nx & Mx).
+  { intros x. rewrite <- !mem_In. destruct (mem x (completed s)), (mem x (failed s)), (mem x (cancelled s)); intuition congruence. }
+  { exact Nr. }
+  assert (Par : incl (parents (attr g x)) (completed s)).
+  { intros q Hq. pose proof (wf_par_lt g W x q Hx Hq) as Hlt.
+    destruct (Mx q Hlt) as [H|H]; auto. exfalso. apply Nx.
+    pose proof (wf_par_child g W x q Hx Hq) as Hch.
+    assert (S : In q (failed s) \/ In q [] \/ (canceled s = false /\ In q (cancelled s))) by tauto.
+    destruct (li_clo g s L q S x Hch) as [F|[F|[]]]; auto. }
+  rewrite poll_eq, Ab. cbn [fst].
+  set (s2 := pre_state c p s).
+  destruct (pre_state_view c p s) as (Vc & Vi & Vr & Vf & Vx & Vd & Vrec & Vk). fold s2 in Vc, Vi, Vr, Vf, Vx, Vd, Vrec, Vk.
+  assert (E3 : disp_state c g p s2 = s2).
+  { unfold disp_state. rewrite Rp. destruct (dry c); auto. destruct (qcode_eqb (qcode p) QOK); auto. }
+  rewrite E3.
+  pose proof (pre_state_Inv c g p s I) as I2. fold s2 in I2.
+  assert (I4 : Inv g (stage_state g s2)).
+  { apply Inv_stage; auto. intros y Hy. apply In_seq_lt in Hy. exact Hy. }
+  destruct (stage_fold_frame g (seq 0 (length g)) s2) as (Sc & Si & Sf & Sx & Srec & Sk & _). fold (stage_state g s2) in *.
+  assert (Rdy : ready (stage_state g s2) <> []).
+  { assert (In x (ready (stage_state g s2))); [|intros Z; rewrite Z in H; destruct H].
+    destruct (in_dec Nat.eq_dec x (ready s)) as [Hr|Hr].
+    - apply stage_fold_ready_mono. rewrite Vr. exact Hr.
+    - apply stage_fold_ready.
+      + apply In_seq_lt. exact Hx.
+      + rewrite Vc. tauto.
+      + unfold getrec. rewrite Vrec.
+        destruct (status (getrec s x)) eqn:St; auto; exfalso;
+          (assert (Hn : status (getrec s x) <> INITIALIZED) by (rewrite St; discriminate));
+          destruct (li_acct g s L x Hn) as [[T|[T|[T|[]]]]|[T|T]]; try tauto; rewrite Hi in T; destruct T.
+      + rewrite Vc. unfold getdeps. rewrite Vd. intros z Hz. apply Par. apply (li_deps g s L x z Hz). }
+  assert (Av : 0 < available_gen c (stage_state g s2)).
+  { unfold available_gen. rewrite Si, Vi, Hi. cbn [length].
+    destruct (ready (stage_state g s2)) as [|h t]; [congruence|]. cbn [length].
+    destruct (throttle c =? 0) eqn:Z; [lia|]. apply Nat.eqb_neq in Z. lia. }
+  destruct (launch_strict c g (stage_state g s2) I4 Rdy) as (h & Hh & Hlt); auto.
+  { rewrite Si, Vi. exact Hi. }
+  apply (Phi_lt g s _ h); auto.
+  - intros y. eapply Nat.le_trans; [apply tail_wle|]. unfold s2. rewrite pre_state_wt. lia.
+  - eapply Nat.lt_le_trans; [exact Hlt|].
+    eapply Nat.le_trans; [exact (ms_wle g _ [] _ [] (stage_fold_ms g (seq 0 (length g)) s2) h)|]. fold (wt g s2 h). unfold s2. rewrite pre_state_wt. lia.
+Qed.
